@@ -287,6 +287,12 @@ func runV1Store(r *core.Run) {
 				}
 				if wr.perm == fsV1.PrivateFileMode {
 					r.Check(len(wr.data) >= 44+16, "v1-write-not-sealed", fmt.Sprintf("private write to %q is too short to be a sealed key", wr.path))
+					// bound to its owner: it must not open without a context nor under a foreign client id
+					for _, kc := range []keystoreV1.KeyContext{keystoreV1.NewEmptyKeyContext(nil), keystoreV1.NewClientIDKeyContext(keystoreV1.PurposeUndefined, []byte("some_other_client"))} {
+						if _, err := w.enc.Decrypt(nil, wr.data, kc); err == nil {
+							r.Fail("v1-write-not-bound-to-owner", fmt.Sprintf("%s(%q): the private write to %q opens under the key context %q", op.name, op.id, wr.path, kc.String()))
+						}
+					}
 				}
 			}
 			// (3) confinement: every path touched stays inside the key folder
